@@ -9,6 +9,7 @@ import (
 	"io"
 	"strconv"
 	"syscall"
+	"time"
 
 	"github.com/scrapli/scrapligo/transport"
 
@@ -104,7 +105,9 @@ type FakeTransport struct {
 
 	Writes     []WriteRec
 	Deliveries []DeliveryRec
-	Stream     []byte // everything delivered
+	Stream     []byte        // everything delivered
+	AllOut     []byte        // everything the device has emitted
+	LastAt     time.Duration // virtual time of the last delivery
 	CloseCalls int
 	OpenCalls  int
 	ReadCalls  int
@@ -125,6 +128,7 @@ func (t *FakeTransport) Open(_ *transport.Args) error {
 	}
 	c := t.Dev.Connect()
 	t.pending = append(t.pending, c...)
+	t.AllOut = append(t.AllOut, c...)
 	t.sent += len(c)
 	return nil
 }
@@ -145,9 +149,13 @@ func (t *FakeTransport) Release() { t.StallAt = -1 }
 // Inject appends unsolicited device output.
 func (t *FakeTransport) Inject(b []byte) {
 	t.pending = append(t.pending, b...)
+	t.AllOut = append(t.AllOut, b...)
 	t.sent += len(b)
 	t.E.Poke()
 }
+
+// Sent returns the total number of bytes the device has emitted so far.
+func (t *FakeTransport) Sent() int { return t.sent }
 
 // Pending returns the bytes produced by the device and not yet delivered.
 func (t *FakeTransport) Pending() int { return len(t.pending) }
@@ -192,6 +200,7 @@ func (t *FakeTransport) Write(b []byte) error {
 	}
 	out := t.Dev.React(b)
 	t.pending = append(t.pending, out...)
+	t.AllOut = append(t.AllOut, out...)
 	t.sent += len(out)
 	t.Writes[idx].SentAfter = t.sent
 	return nil
@@ -204,6 +213,7 @@ func (t *FakeTransport) answer(b []byte, err error) {
 		t.Delivered += len(b)
 		t.Stream = append(t.Stream, b...)
 		t.Deliveries = append(t.Deliveries, DeliveryRec{Step: t.E.Step(), N: len(b), End: t.Delivered})
+		t.LastAt = t.E.Now()
 	}
 	t.E.SetLast(r.th)
 	r.reply <- readResp{b, err}
